@@ -128,7 +128,7 @@ func checkC13(run *mon.Run, rng *mon.Rand, thorough bool) {
 	c13Genesis(run, rng.Split(), pick(thorough, 150, 1500))
 
 	// ---- random longer histories ----
-	hist := pick(thorough, 12, 150)
+	hist := pick(thorough, 12, 400)
 	for h := 0; h < hist && !run.TooMany(); h++ {
 		c13Random(run, rng.Split(), pick(thorough, 250, 600), h == 0)
 	}
